@@ -283,8 +283,15 @@ def loads(s):
     with our decoding version.
     """
     um = xmarshal._FastUnmarshaller(s)
+    # The dispatch table is shared by every unmarshaller: put back the
+    # standard code loader when done, or later xdis.marsh.loads() calls in this
+    # process would decode ordinary code objects as Dropbox ones.
+    saved_load_code = um.dispatch[xmarshal.TYPE_CODE]
     um.dispatch[xmarshal.TYPE_CODE] = load_code
-    return um.load()
+    try:
+        return um.load()
+    finally:
+        um.dispatch[xmarshal.TYPE_CODE] = saved_load_code
 
 
 def fix_dropbox_pyc(fp, fixed_pyc="/tmp/test.pyc"):
